@@ -7,7 +7,10 @@ use serde_json::Value;
 use crate::{interp::Interpreter, types::CelByteCode, CelError, CelResult, CelValue};
 
 use super::default_macros::{load_compile_macros, load_default_macros};
-use super::{default_funcs::load_default_funcs, type_funcs::load_default_types};
+use super::{
+    default_funcs::load_default_funcs,
+    type_funcs::{load_default_types, timestamp_impl},
+};
 
 /// Prototype for a function binding.
 ///
@@ -46,6 +49,18 @@ pub type RsCelFunction = dyn Fn(CelValue, Vec<CelValue>) -> CelValue;
 /// the Interpreter context, is provided to the macro for bytecode resolution.
 pub type RsCelMacro =
     dyn for<'a, 'b> Fn(&'a Interpreter<'a>, CelValue, &[&CelByteCode]) -> CelValue;
+
+// `timestamp()` without an instant to convert means "now"; at compile time only the
+// conversions are available.
+fn compile_time_timestamp(this: CelValue, args: Vec<CelValue>) -> CelValue {
+    if args.iter().all(|arg| arg.is_null()) {
+        return CelValue::from_err(CelError::runtime(
+            "timestamp() reads the clock and cannot be evaluated at compile time",
+        ));
+    }
+
+    timestamp_impl(this, args)
+}
 
 /// Bindings context for a cel evaluation.
 ///
@@ -94,6 +109,12 @@ impl<'a> BindContext<'a> {
         load_compile_macros(&mut ctx);
         load_default_funcs(&mut ctx);
         load_default_types(&mut ctx);
+
+        // Calls that read the clock have to run at every execution, so the compile-time
+        // tables do not offer them and the compiler cannot fold them into a constant.
+        ctx.funcs.remove("now");
+        ctx.bind_func("timestamp", &compile_time_timestamp);
+
         ctx
     }
 
